@@ -122,73 +122,7 @@ theorem OneInv.run (s : OneSys) (h : OneInv s) (ops : List OneOp) : OneInv (s.ru
   | nil => exact h
   | cons op ops ih => exact ih _ (OneInv.step s h op)
 
-/-! ## mpsc -/
-
-structure MpscInv (s : MpscSys) : Prop where
-  conserve : s.sent = s.got ++ s.ch.data
-  never_closed : s.ch.isClosed = false
-  waker_ok : ∀ w, s.ch.waker = some w → s.ch.data = []
-  waiting_ok : ∀ w, s.waiting = some w → s.ch.waker = some w
-
-theorem MpscInv.init : MpscInv MpscSys.init := by
-  constructor <;> simp [MpscSys.init, Mpsc.init]
-
-theorem MpscInv.step (s : MpscSys) (h : MpscInv s) (op : MpscOp) : MpscInv (s.step op).1 := by
-  obtain ⟨h1, h2, h3, h4⟩ := h
-  cases op with
-  | send sid v =>
-    by_cases hi : hasId s.senders sid = true
-    · refine ⟨?_, ?_, ?_, ?_⟩ <;> simp only [MpscSys.step, hi, if_true, Mpsc.sendCS, h2, Bool.false_eq_true, if_false]
-      · rw [h1, List.append_assoc]
-      · intro w hw; cases hw
-      · intro w hw
-        have := clearWaiting_some hw
-        exact absurd (h4 w this.1) this.2
-    · have hi' : hasId s.senders sid = false := by simpa using hi
-      simpa [MpscSys.step, hi'] using (⟨h1, h2, h3, h4⟩ : MpscInv s)
-  | clone sid new =>
-    simp only [MpscSys.step]
-    split
-    · exact ⟨h1, h2, h3, h4⟩
-    · exact ⟨h1, h2, h3, h4⟩
-  | dropSender sid =>
-    simp only [MpscSys.step]
-    split
-    · exact ⟨h1, h2, h3, h4⟩
-    · exact ⟨h1, h2, h3, h4⟩
-  | poll w =>
-    by_cases hr : s.rcvAlive = true
-    · cases hd : s.ch.data with
-      | cons v rest =>
-        have hnw : s.ch.waker = none := by
-          cases hw : s.ch.waker with
-          | none => rfl
-          | some x => have := h3 x hw; rw [hd] at this; cases this
-        refine ⟨?_, ?_, ?_, ?_⟩ <;> simp only [MpscSys.step, hr, if_true, Mpsc.pollCS, hd, gotAdd, pollWaiting]
-        · rw [h1, hd]; simp
-        · exact h2
-        · intro x hx; rw [hnw] at hx; cases hx
-        · intro x hx; cases hx
-      | nil =>
-        refine ⟨?_, ?_, ?_, ?_⟩ <;>
-          simp only [MpscSys.step, hr, if_true, Mpsc.pollCS, hd, h2, Bool.false_eq_true, if_false, gotAdd, pollWaiting]
-        · rw [h1, hd]
-        · intro x _; trivial
-        · intro x hx; simpa using hx
-    · have hr' : s.rcvAlive = false := by simpa using hr
-      simpa [MpscSys.step, hr'] using (⟨h1, h2, h3, h4⟩ : MpscInv s)
-  | dropReceiver =>
-    simp only [MpscSys.step]
-    split
-    · exact ⟨h1, h2, h3, by intro w hw; cases hw⟩
-    · exact ⟨h1, h2, h3, h4⟩
-
-theorem MpscInv.run (s : MpscSys) (h : MpscInv s) (ops : List MpscOp) : MpscInv (s.run ops) := by
-  induction ops generalizing s with
-  | nil => exact h
-  | cons op ops ih => exact ih _ (MpscInv.step s h op)
-
-/-! ## notification -/
+/-! ## handle lists -/
 
 theorem removeId_length (l : List Nat) (i : Nat) (h : hasId l i = true) :
     (removeId l i).length + 1 = l.length := by
@@ -207,6 +141,137 @@ theorem hasId_length_pos (l : List Nat) (i : Nat) (h : hasId l i = true) : 0 < l
   cases l with
   | nil => simp [hasId] at h
   | cons x xs => simp
+
+/-! ## mpsc (with fixes/D39.patch) -/
+
+structure MpscInv (s : MpscSys) : Prop where
+  conserve : s.sent = s.got ++ s.ch.data
+  count : s.ch.senderCount = s.senders.length
+  no_panic : s.panicked = false
+  /-- the channel is closed exactly when no sender handle exists -/
+  closed_iff : s.ch.isClosed = true ↔ s.ch.senderCount = 0
+  waker_ok : ∀ w, s.ch.waker = some w → s.ch.data = [] ∧ s.ch.isClosed = false
+  waiting_ok : ∀ w, s.waiting = some w → s.ch.waker = some w
+
+theorem MpscInv.init : MpscInv MpscSys.init := by
+  constructor <;> simp [MpscSys.init, Mpsc.init]
+
+theorem MpscInv.step (s : MpscSys) (h : MpscInv s) (op : MpscOp) : MpscInv (s.step op).1 := by
+  obtain ⟨h1, hc, hp, hcl, h3, h4⟩ := h
+  cases op with
+  | send sid v =>
+    by_cases hi : hasId s.senders sid = true
+    · have hpos : 0 < s.ch.senderCount := by rw [hc]; exact hasId_length_pos _ _ hi
+      have h2 : s.ch.isClosed = false := by
+        cases hb : s.ch.isClosed with
+        | false => rfl
+        | true => have := hcl.mp hb; omega
+      refine ⟨?_, ?_, ?_, ?_, ?_, ?_⟩ <;>
+        simp only [MpscSys.step, hi, if_true, Mpsc.sendCS, h2, Bool.false_eq_true, if_false]
+      · rw [h1, List.append_assoc]
+      · exact hc
+      · exact hp
+      · simpa [h2] using hcl
+      · intro w hw; cases hw
+      · intro w hw
+        have := clearWaiting_some hw
+        exact absurd (h4 w this.1) this.2
+    · have hi' : hasId s.senders sid = false := by simpa using hi
+      simpa [MpscSys.step, hi'] using (⟨h1, hc, hp, hcl, h3, h4⟩ : MpscInv s)
+  | clone sid new =>
+    simp only [MpscSys.step]
+    split
+    · rename_i hcond
+      have hi : hasId s.senders sid = true := by
+        cases hb : hasId s.senders sid with
+        | true => rfl
+        | false => simp [hb] at hcond
+      have hpos : 0 < s.ch.senderCount := by rw [hc]; exact hasId_length_pos _ _ hi
+      have h2 : s.ch.isClosed = false := by
+        cases hb : s.ch.isClosed with
+        | false => rfl
+        | true => have := hcl.mp hb; omega
+      refine ⟨h1, ?_, hp, ?_, h3, h4⟩
+      · simp [Mpsc.cloneCS, hc]
+      · simp [Mpsc.cloneCS, h2]
+    · exact ⟨h1, hc, hp, hcl, h3, h4⟩
+  | dropSender sid =>
+    by_cases hi : hasId s.senders sid = true
+    · have hlen := removeId_length s.senders sid hi
+      have hpos : 0 < s.ch.senderCount := by rw [hc]; exact hasId_length_pos _ _ hi
+      have hne : ¬ s.ch.senderCount = 0 := by omega
+      have h2 : s.ch.isClosed = false := by
+        cases hb : s.ch.isClosed with
+        | false => rfl
+        | true => have := hcl.mp hb; omega
+      by_cases hlast : s.ch.senderCount - 1 = 0
+      · refine ⟨?_, ?_, ?_, ?_, ?_, ?_⟩ <;>
+          simp only [MpscSys.step, hi, if_true, Mpsc.dropCS, hne, if_false, hlast]
+        · exact h1
+        · omega
+        · exact hp
+        · intro w hw; cases hw
+        · intro w hw
+          have := clearWaiting_some hw
+          exact absurd (h4 w this.1) this.2
+      · refine ⟨?_, ?_, ?_, ?_, ?_, ?_⟩ <;>
+          simp only [MpscSys.step, hi, if_true, Mpsc.dropCS, hne, if_false, hlast, clearWaiting]
+        · exact h1
+        · omega
+        · exact hp
+        · simp [h2]
+        · exact h3
+        · exact h4
+    · have hi' : hasId s.senders sid = false := by simpa using hi
+      simpa [MpscSys.step, hi'] using (⟨h1, hc, hp, hcl, h3, h4⟩ : MpscInv s)
+  | poll w =>
+    by_cases hr : s.rcvAlive = true
+    · cases hd : s.ch.data with
+      | cons v rest =>
+        have hnw : s.ch.waker = none := by
+          cases hw : s.ch.waker with
+          | none => rfl
+          | some x => have := (h3 x hw).1; rw [hd] at this; cases this
+        refine ⟨?_, ?_, ?_, ?_, ?_, ?_⟩ <;> simp only [MpscSys.step, hr, if_true, Mpsc.pollCS, hd, gotAdd, pollWaiting]
+        · rw [h1, hd]; simp
+        · exact hc
+        · exact hp
+        · exact hcl
+        · intro x hx; rw [hnw] at hx; cases hx
+        · intro x hx; cases hx
+      | nil =>
+        by_cases h2 : s.ch.isClosed = true
+        · refine ⟨?_, ?_, ?_, ?_, ?_, ?_⟩ <;>
+            simp only [MpscSys.step, hr, if_true, Mpsc.pollCS, hd, h2, gotAdd, pollWaiting]
+          · rw [h1, hd]
+          · exact hc
+          · exact hp
+          · simpa [h2] using hcl
+          · intro x hx; have := (h3 x hx).2; rw [h2] at this; cases this
+          · intro x hx; cases hx
+        · have h2' : s.ch.isClosed = false := by simpa using h2
+          refine ⟨?_, ?_, ?_, ?_, ?_, ?_⟩ <;>
+            simp only [MpscSys.step, hr, if_true, Mpsc.pollCS, hd, h2', Bool.false_eq_true, if_false, gotAdd, pollWaiting]
+          · rw [h1, hd]
+          · exact hc
+          · exact hp
+          · simpa [h2'] using hcl
+          · intro x _; exact ⟨trivial, trivial⟩
+          · intro x hx; simpa using hx
+    · have hr' : s.rcvAlive = false := by simpa using hr
+      simpa [MpscSys.step, hr'] using (⟨h1, hc, hp, hcl, h3, h4⟩ : MpscInv s)
+  | dropReceiver =>
+    simp only [MpscSys.step]
+    split
+    · exact ⟨h1, hc, hp, hcl, h3, by intro w hw; cases hw⟩
+    · exact ⟨h1, hc, hp, hcl, h3, h4⟩
+
+theorem MpscInv.run (s : MpscSys) (h : MpscInv s) (ops : List MpscOp) : MpscInv (s.run ops) := by
+  induction ops generalizing s with
+  | nil => exact h
+  | cons op ops ih => exact ih _ (MpscInv.step s h op)
+
+/-! ## notification -/
 
 structure NotifInv (s : NotifSys) : Prop where
   count : s.ch.senderCount = s.senders.length
